@@ -34,14 +34,7 @@ theorem LPInv_from (s : St) (hs : WFSt' p s)
     exact ⟨[], by simp [rowsFn], List.nodup_nil, fun t ht => by simp at ht⟩
   · intro r i
     rw [relSt_updateIndices]
-    simp only [List.mem_append, List.mem_range]
-    constructor
-    · intro h; exact .inr h
-    · rintro (h | h)
-      · by_cases hr : r < s.length
-        · exact hs.2 _ (relSt_mem s r hr) i h
-        · rw [relSt_of_ge s r (Nat.le_of_not_lt hr)] at h; simp at h
-      · exact h
+    simp only [List.mem_range]
   · intro M hM f hf
     have hr : f.rel < p.rels.length := by
       have := lt_of_mem_rows _ f.rel f.args hf
